@@ -57,8 +57,50 @@ Section Pipeline.
     apply bind_ok in H; destruct H as [[] [H7 H]].
     apply bind_ok in H; destruct H as [[] [H8 H]].
     apply bind_ok in H; destruct H as [[] [H9 H]].
+    apply bind_ok in H; destruct H as [[] [H10 H]].
     exists lat, trs, sm, imps, cells. repeat split; try assumption.
-    intros Hs; rewrite Hs in H; exact H.
+    intros Hs; rewrite Hs in H10; exact H10.
+  Qed.
+
+  (* ... and the boundary-condition stage *)
+  Lemma validate_ok_bc (d : deckm) :
+    validate S d = Ok tt ->
+    exists trs sm, stage_trs S (d_trs d) [] = Ok trs /\
+                   stage_surfs S trs (d_surfs d) [] = Ok sm /\ stage_bc sm d = Ok tt.
+  Proof.
+    unfold validate; intros H.
+    apply bind_ok in H; destruct H as [lat [H1 H]].
+    apply bind_ok in H; destruct H as [trs [H2 H]].
+    apply bind_ok in H; destruct H as [sm [H3 H]].
+    apply bind_ok in H; destruct H as [imps [H4 H]].
+    apply bind_ok in H; destruct H as [cells [H5 H]].
+    apply bind_ok in H; destruct H as [[] [H6 H]].
+    apply bind_ok in H; destruct H as [[] [H7 H]].
+    apply bind_ok in H; destruct H as [[] [H8 H]].
+    apply bind_ok in H; destruct H as [[] [H9 H]].
+    apply bind_ok in H; destruct H as [[] [H10 H]].
+    exists trs, sm. auto.
+  Qed.
+
+  (* a flagged surface of more than one piece stops the run, unless the
+     boundary conditions are skipped *)
+  Theorem run_flagged_macrobody_rejected (d : deckm) id :
+    d_skipbc d = false -> In id (d_flagged d) ->
+    (forall trs sm, stage_trs S (d_trs d) [] = Ok trs -> stage_surfs S trs (d_surfs d) [] = Ok sm ->
+       exists mn nm nt4, lookup id sm = Some (mn, (nm, nt4)) /\ (1 < nm)%nat) ->
+    is_ok (validate S d) = false.
+  Proof.
+    intros Hs Hin Hsurf.
+    destruct (validate S d) as [[]|e] eqn:H; [|reflexivity]. exfalso.
+    destruct (validate_ok_bc d H) as [trs [sm [H2 [H3 Hbc]]]].
+    destruct (Hsurf trs sm H2 H3) as [mn [nm [nt4 [Hl Hn]]]].
+    unfold stage_bc in Hbc. rewrite Hs in Hbc.
+    assert (Hex : existsb (fun id0 => match lookup id0 sm with
+                                      | Some (_, (nm0, _)) => (1 <? nm0)%nat
+                                      | None => false end) (d_flagged d) = true).
+    { apply existsb_exists. exists id. split; [exact Hin|]. rewrite Hl.
+      apply Nat.ltb_lt. exact Hn. }
+    rewrite Hex in Hbc. discriminate.
   Qed.
 
   (* ---- TR cards ---- *)
